@@ -226,9 +226,11 @@ class Purity:
                 ctx.count("stores-on-original-tree")
         for k, n in props.calls.items():
             if n != calls0.get(k, 0):
+                if self.ex is not None and any(r.endswith(":" + k) for r in self.ex.reachable):
+                    continue  # a special method that the by-name call graph did reach
                 self.tie("translator-crosscheck",
-                         f"@property {k} was invoked during rebuild(); property reads are not in the call graph",
-                         doc=text)
+                         f"{k} was invoked during rebuild(): property reads and implicit special-method calls "
+                         f"(subscript, ==, iteration, truth test) are not in the by-name call graph", doc=text)
         self.ctx.corr_checked += len(recs)
         return found
 
@@ -652,8 +654,12 @@ def _sched_runs(ctx, n_sched, n_steps, sample, serial, reqs, expect, descr, seen
 # ------------------------------------------------------------------------------------------------
 def static_part(ctx: fw.Ctx):
     """Lean's verdict on the generated program vs the translator's own; names of unchecked writes."""
-    from ..translate import gen_effects
+    from ..translate import effects_selftest, gen_effects
 
+    problems = effects_selftest.run()
+    ctx.extra["translator_selftest"] = "ok" if not problems else problems[:5]
+    for pb in problems[:3]:
+        ctx.tie_break("translator-selftest", pb)
     try:
         ex = gen_effects.extracted()
     except Exception as exc:  # noqa: BLE001 - already recorded as translator problem by the framework
@@ -720,10 +726,19 @@ def run(ctx: fw.Ctx):
         "per thread; the GIL makes single dict operations on _CONTEXTS atomic (exercised by N-thread runs, not proved)",
         "tree-sitter's C parser state is confined to the Parser object (exercised by N-thread runs, not proved)",
         "external callees listed in evidence (coverage.effects.external_callees_assumed_pure) and builtins do not "
-        "write through their arguments; @property getters are not invoked by rebuild (asserted dynamically)",
+        "write through their arguments; @property getters and the package's own special methods (__getitem__, "
+        "__eq__, ...) are not invoked implicitly by rebuild (asserted dynamically on every document)",
         "annotations of immutable types (str, int, bool, float, bytes, None, Path) in the package are truthful",
         "calls are resolved by name; calls through function values held in variables are not followed",
     ]
+    ctx.extra["fragment"] = (
+        "(a) every function reachable by name from a `rebuild` method, plus the constructors / __post_init__ / "
+        "__init__ they run (see coverage.effects.functions_translated); not covered: calls through function "
+        "values, implicit special-method calls and property getters (asserted absent at run time), external "
+        "callees; (b) code reachable by name from parser.parse/parse_file/parse_to_ast and from `rebuild`; "
+        "(c) parser slot, the two source context variables, the resolution registry; document heaps are owned "
+        "by one thread"
+    )
     ex = static_part(ctx)
     quick = ctx.quick
     docs = doc_stream(ctx, 1500 if quick else 40000, 4 if quick else 6)
